@@ -157,6 +157,33 @@ var modeOps = []op{
 		return cat(cbcmac.NewCBCMAC(o.block, 16).MAC(data), cbcmac.NewCMAC(o.block, 16).MAC(data),
 			cbcmac.NewTRCBCMAC(o.block, 12).MAC(data), cbcmac.NewCBCRMAC(o.block, 16).MAC(data))
 	}},
+	{"XTS / GB-XTS encrypter and decrypter constructed over the shared block (a block-making function that hands out the shared block)", "block", func(o *objset, m *material, s uint64) []byte {
+		r := mon.NewRand(s, "m-13")
+		shared := func([]byte) (cipher.Block, error) { return o.block, nil }
+		k, tw := r.Bytes(16), r.Bytes(16)
+		pt := r.Bytes(r.Range(16, 600))
+		ct, back := make([]byte, len(pt)), make([]byte, len(pt))
+		var e, d cipher.BlockMode
+		var err error
+		if r.Intn(2) == 0 {
+			if e, err = gmcipher.NewXTSEncrypter(shared, k, k, tw); err == nil {
+				d, err = gmcipher.NewXTSDecrypter(shared, k, k, tw)
+			}
+		} else {
+			if e, err = gmcipher.NewGBXTSEncrypter(shared, k, k, tw); err == nil {
+				d, err = gmcipher.NewGBXTSDecrypter(shared, k, k, tw)
+			}
+		}
+		if err != nil {
+			return res(nil, err)
+		}
+		e.CryptBlocks(ct, pt)
+		d.CryptBlocks(back, ct)
+		if !bytes.Equal(back, pt) {
+			return errf("XTS over the shared block does not invert")
+		}
+		return ct
+	}},
 	{"own XTS/GB-XTS encrypter and decrypter + OFBNLF", "own", func(o *objset, m *material, s uint64) []byte {
 		r := mon.NewRand(s, "m-12")
 		k1, k2, tw := r.Bytes(16), r.Bytes(16), r.Bytes(16)
